@@ -7,7 +7,8 @@ diff=$1; tag=$2; checks=${3:-C01 C02 C03 C04 C05 C06 C07 C08 C09 C10 C11 C12 C13
 wt=/tmp/ev/$tag; out=/tmp/ev/out/$tag
 rm -rf $out; mkdir -p /tmp/ev/out $out
 git -C /repo worktree remove --force $wt 2>/dev/null
-git -C /repo worktree add -q --detach $wt HEAD || exit 3
+for try in 1 2 3 4 5; do git -C /repo worktree add -q --detach $wt HEAD 2>/dev/null && break; sleep 2; done
+[ -d $wt/src ] || { echo "$tag WORKTREE-FAILED"; exit 3; }
 cd $wt
 git apply $diff 2>/dev/null || git apply --3way $diff || { echo "$tag APPLY-FAILED"; cd /; git -C /repo worktree remove --force $wt; exit 3; }
 tests=$(PYTHONPATH=src /venv/bin/python -m pytest -q -p no:cacheprovider 2>&1 | tail -1)
